@@ -466,6 +466,19 @@ pub fn faults(out: &mut Out, seed: u64, thorough: bool) {
             tt[0].tl = tl;
             run_faulty(out, &mut rng, "set_tl", &prelude, &tt.iter().map(|p| p.ser()).collect::<Vec<_>>());
         }
+        // the announced total length is wrong but the CRC is computed over exactly the fields and bytes
+        // that are sent: only the length check can reject such a train
+        for delta in [-5i32, -2, -1, 1, 2, 3, 6, 200] {
+            let mut tt = t.clone();
+            let tl2 = (t[0].tl as i32 + delta).max(0) as u16;
+            if tl2 == t[0].tl {
+                continue;
+            }
+            tt[0].tl = tl2;
+            let last = tt.len() - 1;
+            tt[last].crc = crc32_mpeg(&[&tl2.to_be_bytes(), &t[0].ptype.to_be_bytes(), &t[0].label, &_pdu]);
+            run_faulty(out, &mut rng, "crafted_tl", &prelude, &tt.iter().map(|p| p.ser()).collect::<Vec<_>>());
+        }
         let last = t.len() - 1;
         for crc in [0u32, 0xFFFF_FFFF, t[last].crc ^ 1, t[last].crc ^ 0x8000_0000, rng.next() as u32] {
             let mut tt = t.clone();
